@@ -31,11 +31,4 @@ impl GetTransactionsProof {
         ensures hashes_view(r@) == self.s_tx_hashes(),
                 forall|i: int| #![trigger r@[i]] 0 <= i < r@.len() ==> r@[i]@ == self.s_tx_hashes()[i] { unimplemented!() }
 }
-pub open spec fn hashes_view(s: Seq<Byte32>) -> Seq<Seq<u8>> { s.map_values(|b: Byte32| b@) }
-pub open spec fn in_hashes(s: Seq<Byte32>, x: Seq<u8>) -> bool { exists|i: int| 0 <= i < s.len() && (#[trigger] s[i])@ == x }
-impl<'a> VfRefSet<'a, Byte32> {
-    #[verifier::external_body]
-    pub fn contains(&self, x: &Byte32) -> (r: bool)
-        ensures r == (in_hashes(self.a@, x@) || in_hashes(self.b@, x@)) { unimplemented!() }
-}
 // ===== end =====
